@@ -32,8 +32,11 @@ class Stall(BaseException):
 
 def cases(tier, seed):
     out = [{'prop': ID, 'seed': seed, 'idx': i, 'large': i % 12 == 0} for i in range(N[tier])]
-    out.sort(key=lambda c: not c['large'])
-    return out
+    # a bounded number of the (slow) large cases first, so that they do not form the tail of the run; the rest
+    # keep their place - otherwise a loaded machine spends the whole budget on large cases alone
+    head = [c for c in out if c['large']][:60 if tier == 'quick' else 400]
+    hs = {c['idx'] for c in head}
+    return head + [c for c in out if c['idx'] not in hs]
 
 
 def run_case(case):
